@@ -38,7 +38,8 @@ MANIFEST = {
 
 HERE = os.path.abspath(__file__)
 MP = refmp.build(b'BND', [(refmp.cd('t'), b'v%d'), (refmp.cd('f', 'n.bin', 'text/plain'), b'data%d')], epilogue=b'\r\n')[0]
-KINDS = ['getq', 'form', 'upload', 'raise', 'crash', '404', 'gen', 'wild', 'chunked', 'badform', 'badchunkj', 'badchunkh', 'notmod']
+KINDS = ['getq', 'form', 'upload', 'raise', 'crash', '404', 'gen', 'wild', 'chunked', 'badform', 'badchunkj', 'badchunkh', 'notmod', 'rex', 'session']
+SESSION_SECRET = 'k8'
 
 
 def src_prefix():
@@ -130,6 +131,26 @@ def make_app(om, obs):
         rs.status = 304
         snap('p2', ident)
         return ''
+    def media(label):
+        def h(kind, name):
+            ident = app.request.headers.get('X-Id')
+            snap('p1', ident)
+            return f'{label}:{kind}:{name}'
+        return h
+    # selector filters: one compiled `rex` filter is shared by the three routes (and by every thread)
+    for i, label in enumerate(('image', 'document', 'raw'), 1):
+        app.route('/media/<kind.rex((img)|(doc)|(raw))[%d]>/<name>' % i, 'GET', media(label))
+
+    def session():
+        ident = app.request.headers.get('X-Id')
+        snap('p1', ident)
+        s = app.request.get_cookie('sess', secret=SESSION_SECRET)
+        s['visits'] += 1               # the handler edits what it was given: its own copy of the session
+        s['trail'].append('page' + ident)
+        snap('p2', ident)
+        app.response.set_cookie('sess', s, secret=SESSION_SECRET)
+        return 'session:' + repr(sorted(s.items()))
+    app.route('/session', 'GET', session)
     app.route('/notmod', 'GET', notmod)
     app.route('/chunked', 'POST', chunked)
     app.route('/badform', 'POST', badform)
@@ -172,6 +193,11 @@ def environ_for(kind, ident):
         return wsgi.environ('POST', '/chunked', qs='who=' + ident * (3 if kind == 'badchunkh' else 1), body=b'zz\r\n', chunked=True, headers=h2)
     if kind == 'notmod':
         return wsgi.environ('GET', '/notmod', qs='n=' + ident, headers=h)
+    if kind == 'rex':
+        return wsgi.environ('GET', '/media/%s/n%s' % (['img', 'doc', 'raw'][int(ident) % 3], ident), headers=h)
+    if kind == 'session':
+        # both requests come from one browser session: the same signed cookie (a dict) is sent by each of them
+        return wsgi.environ('GET', '/session', qs='s=' + ident, headers=dict(h, Cookie='sid=s%s; %s' % (ident, session_cookie())))
     if kind == 'badform':
         # a multipart form whose field header is malformed in a request-specific way; the client asks for JSON errors
         h2 = dict(h, Accept='application/json')
@@ -180,6 +206,19 @@ def environ_for(kind, ident):
     if kind == 'wild':
         return wsgi.environ('GET', '/u/alice%s/inbox' % ident if ident == '1' else '/u/admin/settingsx', headers=h)
     raise AssertionError(kind)
+
+
+_sess = {}
+
+
+def session_cookie():
+    om = sut.load()
+    if _sess.get('om') is not om:
+        r = om.HTTPResponse()
+        r.set_cookie('sess', {'visits': 1, 'trail': ['login']}, secret=SESSION_SECRET)
+        _sess['om'] = om
+        _sess['pair'] = 'sess=' + r._cookies['sess'].coded_value
+    return _sess['pair']
 
 
 def serve(app, kind, ident):
@@ -192,7 +231,7 @@ def serve(app, kind, ident):
 _solo = {}
 
 
-FRESH_KINDS = {'badform', 'badchunkj', 'badchunkh'}     # requests answered through the shared error objects of errors_map:
+FRESH_KINDS = {'badform', 'badchunkj', 'badchunkh', 'session'}     # requests answered through the shared error objects of errors_map:
 #                                                          every execution (and the stand-alone run) starts from a fresh import
 
 
@@ -246,7 +285,8 @@ def judge(om, kinds, x):
 
 
 QUICK_PAIRS = [('getq', k) for k in KINDS[:8]] + [('raise', 'crash'), ('form', 'upload'), ('wild', 'wild'), ('404', 'crash'), ('gen', 'gen'),
-               ('chunked', 'chunked'), ('badform', 'badform'), ('badchunkj', 'badchunkh'), ('getq', 'notmod'), ('notmod', 'crash')]
+               ('chunked', 'chunked'), ('badform', 'badform'), ('badchunkj', 'badchunkh'), ('getq', 'notmod'), ('notmod', 'crash'),
+               ('rex', 'rex'), ('session', 'session')]
 
 
 def pairs():
